@@ -85,6 +85,16 @@ def cont_lit(a):
     return "(%d,%d,(%d,%d,%d,%d,%d,%d), %s)" % (kind, ch, c, w, h, depth, version, n, content_lit(ct))
 
 
+# how the codec argument is passed: Compression is an IntEnum and callers pass both members and plain ints
+# (VirtualMemoryArray.set_data forwards its raw `compression=0` default); (form on compress, form on decompress)
+FORMS = [("enum", "enum"), ("int", "int"), ("int", "enum"), ("enum", "int")]
+CUR = {"form": ("enum", "enum")}
+
+
+def cf(CC, c, form):
+    return CC[c] if form == "enum" else int(c)
+
+
 def row_bytes(w, depth):
     return (w * depth + 7) // 8
 
@@ -336,11 +346,12 @@ def py_binding_pass(ck, comp, CC, inp):
                 for ct in cls:
                     g = (1, w, h, depth, version, n)
                     data = gen(ct, n)
+                    fe, fd = CUR["form"] = FORMS[len(comp_cases) % 4]
                     ck.count("pyrle:cases")
                     ck.count("pyrle:shape:" + tag)
                     if n >= 2 and len(set(data)) > 1:
                         ck.nontriv(("py", g, ct))
-                    r = call(comp.compress, data, CC[1], w, h, depth, version)
+                    r = call(comp.compress, data, cf(CC, 1, fe), w, h, depth, version)
                     comp_cases.append(((g, ct), dg(r)))
                     if r[0] == "err":
                         rt = r
@@ -350,14 +361,14 @@ def py_binding_pass(ck, comp, CC, inp):
                             ck.fail("roundtrip-codec-pyrle", inp(g, ct, binding="rle.py"), [r[1]], "decompress(compress(x)) == x",
                                     stage="compress", error=r[2])
                     else:
-                        rt = call(comp.decompress, bytes(r[1]), CC[1], w, h, depth, version)
+                        rt = call(comp.decompress, bytes(r[1]), cf(CC, 1, fd), w, h, depth, version)
                         if rt[0] != "ok" or bytes(rt[1]) != data:
                             ck.fail("roundtrip-codec-pyrle", inp(g, ct, binding="rle.py"), canon(rt)[:40], "decompress(compress(x)) == x",
                                     stage="decompress", error=rt[2] if rt[0] == "err" else "")
                     rt_cases.append(((g, ct), dg(rt)))
                     for variant in (0, 1, 2):
                         sp = spec_rle_stream(data, w, h, depth, version, variant)
-                        rs = call(comp.decompress, sp, CC[1], w, h, depth, version)
+                        rs = call(comp.decompress, sp, cf(CC, 1, fd), w, h, depth, version)
                         ck.count("pyrle:spec-stream")
                         if rs[0] != "ok" or bytes(rs[1]) != data:
                             ck.fail("spec-stream-decode-pyrle", inp(g, ct, encoder="packbits%d" % variant, binding="rle.py"), canon(rs)[:40],
@@ -369,9 +380,10 @@ def py_binding_pass(ck, comp, CC, inp):
                     if kind == 2 and version == 2:
                         kind = 0
                     channels = ck.rng.randint(1, 3)
+                    CUR["form"] = (fe, "enum")
                     if kind == 0:
                         def rtc():
-                            cd = ChannelData(compression=CC[1])
+                            cd = ChannelData(compression=cf(CC, 1, fe))
                             cd.set_data(data, w, h, depth, version)
                             return cd.get_data(w, h, depth, version)
                         g2, want, name = g, data, "roundtrip-channeldata-pyrle"
@@ -382,14 +394,14 @@ def py_binding_pass(ck, comp, CC, inp):
                         hdr = types.SimpleNamespace(version=version, channels=channels, height=h, width=w, depth=depth)
 
                         def rtc():
-                            im = ImageData(compression=CC[1])
+                            im = ImageData(compression=cf(CC, 1, fe))
                             im.set_data(planes, hdr)
                             return im.get_data(hdr)
                         name = "roundtrip-imagedata-pyrle"
                     else:
                         def rtc():
                             v = VirtualMemoryArray()
-                            v.set_data((w, h), data, depth, CC[1])
+                            v.set_data((w, h), data, depth, cf(CC, 1, fe))
                             return v.get_data()
                         g2, want, name = g, data, "roundtrip-vma-pyrle"
                     r = call(rtc)
@@ -430,6 +442,7 @@ def run():
                "six content classes (constant, runs, ramp, alternating, noise, extremes) with fresh parameters; "
                "streams of an independent spec-following encoder (three PackBits strategies, prediction) and mutated streams; "
                "the RLE codec once more with rle_impl rebound to the pure-Python rle.py (widths 63,64,125..131,252..258, 1-bit 1001..1016, small shapes; codec, spec streams, containers); "
+               "the codec argument passed as Compression member and as plain int in all four compress/decompress combinations; "
                "containers with their own geometry; non-trivial = raster with >= 2 bytes that is not constant")
     comp, C = impl()
     cy = uses_cy()
@@ -449,23 +462,26 @@ def run():
         return z
 
     def inp(g, ct, **kw):
-        d = {"codec": g[0], "w": g[1], "h": g[2], "depth": g[3], "version": g[4], "n": g[5], "content": list(ct)}
+        d = {"codec": g[0], "w": g[1], "h": g[2], "depth": g[3], "version": g[4], "n": g[5], "content": list(ct),
+             "codec_form": list(CUR["form"])}
         d.update(kw)
         return d
 
     # ---------------- codec level: compress, round trip, independent encoder
     cases = list(gen_cases(ck))
     comp_cases, rt_cases, spec_cases = [], [], []
-    for g, ct, tag in cases:
+    for k_case, (g, ct, tag) in enumerate(cases):
         c, w, h, depth, version, n = g
         data = gen(ct, n)
+        fe, fd = CUR["form"] = FORMS[k_case % 4]
+        ck.count("codec-arg:%s/%s" % (fe, fd))
         ck.count("codec:" + CODECS[c])
         ck.count("depth:%d" % depth)
         ck.count("shape:" + tag)
         ck.count("content:" + ct[0])
         if n >= 2 and len(set(data)) > 1:
             ck.nontriv((g, ct))
-        r = call(comp.compress, data, CC[c], w, h, depth, version)
+        r = call(comp.compress, data, cf(CC, c, fe), w, h, depth, version)
         # what the model sees of a ZIP stream is the payload handed to zlib
         rc = r
         if r[0] == "ok" and c >= 2:
@@ -489,7 +505,7 @@ def run():
             else:
                 ck.fail("roundtrip-codec", inp(g, ct), [r[1]], "decompress(compress(x)) == x", stage="compress", error=r[2])
         else:
-            rt = call(comp.decompress, bytes(r[1]), CC[c], w, h, depth, version)
+            rt = call(comp.decompress, bytes(r[1]), cf(CC, c, fd), w, h, depth, version)
             if rt[0] != "ok" or bytes(rt[1]) != data:
                 ck.fail("roundtrip-codec", inp(g, ct), canon(rt)[:40], "decompress(compress(x)) == x", stage="decompress",
                         error=rt[2] if rt[0] == "err" else "")
@@ -513,7 +529,7 @@ def run():
         elif c == 0 and tag == "small":
             streams.append(("raw", data, data))
         for name, s_impl, s_model in streams:
-            rs = call(comp.decompress, s_impl, CC[c], w, h, depth, version)
+            rs = call(comp.decompress, s_impl, cf(CC, c, fd), w, h, depth, version)
             ck.count("spec-stream:" + name)
             if rs[0] != "ok" or bytes(rs[1]) != data:
                 ck.fail("spec-stream-decode", inp(g, ct, encoder=name), canon(rs)[:40], "the original pixels",
@@ -560,7 +576,7 @@ def run():
         w2, h2 = w, h
         if ck.rng.random() < 0.25:
             w2, h2 = max(0, w + ck.rng.choice([-1, 0, 1])), max(0, h + ck.rng.choice([-1, 0, 1]))
-        r = call(comp.decompress, zl(s) if c >= 2 else s, CC[c], w2, h2, depth, version)
+        r = call(comp.decompress, zl(s) if c >= 2 else s, cf(CC, c, FORMS[_ % 2][0]), w2, h2, depth, version)
         ck.count("malformed-outcome:" + ("ok" if r[0] == "ok" else "err%d" % r[1]))
         mal.append((((c, w2, h2, depth, version, len(s)), ("lit", list(s))), dg(r)))
     bad = ck.correspond("decompress_malformed", "c_decompress %s" % cyb, IMPORTS, mal, case_lit, chunk=700)
@@ -580,7 +596,7 @@ def run():
             pe.append(((g, ct), dg(call(comp.encode_prediction, data, w, h, depth))))
             pd.append(((g, ct), dg(call(comp.decode_prediction, data, w, h, depth))))
         c = ck.rng.randrange(4)
-        r = call(comp.compress, data, CC[c], w, h, depth, 1)
+        r = call(comp.compress, data, cf(CC, c, FORMS[_ % 2][0]), w, h, depth, 1)
         if r[0] == "ok" and c >= 2:
             r = call(zlib.decompress, bytes(r[1]))
         wl.append((((c, w, h, depth, 1, n), ct), dg(r)))
@@ -610,13 +626,17 @@ def run():
         c, w, h, depth, version, n = g
         kind = ck.rng.randrange(3)
         channels = ck.rng.randint(1, 4)
+        fe = ("enum", "int")[ck.rng.randrange(2)]
+        # ChannelData / ImageData convert the field to a member; VirtualMemoryArray stores a member but compresses with what it was given
+        CUR["form"] = (fe, "enum")
+        ck.count("container-codec-arg:" + fe)
         expect_reject = (c == 3 and depth == 1)
         if kind == 0:
             data = gen(ct, n)
             g2 = g
 
             def rt0():
-                cd = ChannelData(compression=CC[c])
+                cd = ChannelData(compression=cf(CC, c, fe))
                 ln = cd.set_data(data, w, h, depth, version)
                 assert ln == len(cd.data)
                 bio = io.BytesIO()
@@ -639,7 +659,7 @@ def run():
                 hdr = types.SimpleNamespace(version=version, channels=channels, height=h, width=w, depth=depth)
 
             def rt1():
-                im = ImageData(compression=CC[c])
+                im = ImageData(compression=cf(CC, c, fe))
                 im.set_data(planes, hdr)
                 bio = io.BytesIO()
                 im.write(bio)
@@ -664,7 +684,7 @@ def run():
 
             def rt2():
                 v = VirtualMemoryArray()
-                v.set_data((w, h), data, depth, CC[c])
+                v.set_data((w, h), data, depth, cf(CC, c, fe))
                 bio = io.BytesIO()
                 v.write(bio)
                 v2 = VirtualMemoryArray.read(io.BytesIO(bio.getvalue()))
@@ -712,6 +732,8 @@ def replay(path):
     data = gen(ct, i["n"])
     c, w, h, depth, version = i["codec"], i["w"], i["h"], i["depth"], i["version"]
     kind = fl["kind"][:-6] if fl["kind"].endswith("-pyrle") else fl["kind"]
+    CUR["form"] = tuple(i.get("codec_form", ["enum", "enum"]))
+    print("codec argument passed as: %s on compress, %s on decompress (enum = Compression member, int = plain int)" % CUR["form"])
     saved = comp.rle_impl
     if i.get("binding") == "rle.py":
         from psd_tools.compression import rle as pyrle
@@ -733,14 +755,14 @@ def _replay(fl, i, kind, comp, CC, ct, data, c, w, h, depth, version):
             s = zlib.compress(spec_predict(data, w, h, depth))
         else:
             s = zlib.compress(data) if c == 2 else data
-        r = call(comp.decompress, s, CC[c], w, h, depth, version)
+        r = call(comp.decompress, s, cf(CC, c, CUR["form"][1]), w, h, depth, version)
         print("decompress(spec stream) ->", "equal to the pixels" if r[0] == "ok" and bytes(r[1]) == data else canon(r)[:40], r[2] if r[0] == "err" else "")
     else:
         hh = h * i.get("channels", 1) if kind == "roundtrip-imagedata" else h
-        r = call(comp.compress, data, CC[c], w, hh, depth, version)
+        r = call(comp.compress, data, cf(CC, c, CUR["form"][0]), w, hh, depth, version)
         print("compress ->", ("%d bytes" % len(r[1])) if r[0] == "ok" else r[1:])
         if r[0] == "ok":
-            r2 = call(comp.decompress, bytes(r[1]), CC[c], w, hh, depth, version)
+            r2 = call(comp.decompress, bytes(r[1]), cf(CC, c, CUR["form"][1]), w, hh, depth, version)
             print("decompress(compress(x)) ->", "x" if r2[0] == "ok" and bytes(r2[1]) == data else canon(r2)[:40], r2[2] if r2[0] == "err" else "")
             if r2[0] == "ok" and bytes(r2[1]) != data:
                 d = bytes(r2[1])
